@@ -173,7 +173,7 @@ pub fn every_k(word: &str, k: usize) -> Vec<usize> {
 fn half(word: &str) -> Vec<usize> {
     let n = word.chars().count();
     if n == 0 {
-        return vec![];
+        return vec![0];     // exactly what the documented closure returns for the empty word (leading spaces of a paragraph)
     }
     let q = n / 2;
     let idx = word.char_indices().nth(q).map(|(i, _)| i).unwrap_or(0);
